@@ -175,33 +175,49 @@ func (p PubSubBackend[Result]) ListenForNotifications(
 		defer close(replyChan)
 		defer cancel()
 
+		// sendReply must not block forever when the caller has stopped reading:
+		// it gives up as soon as the listening context is done.
+		sendReply := func(reply Reply[Result]) {
+			select {
+			case replyChan <- reply:
+			case <-ctx.Done():
+			}
+		}
+		// sendLastReply is used just before the listener finishes: the reply is sent only if there is room for it.
+		sendLastReply := func(reply Reply[Result]) {
+			select {
+			case replyChan <- reply:
+			default:
+			}
+		}
+
 		for {
 			select {
 			case <-ctx.Done():
-				replyChan <- Reply[Result]{
+				sendLastReply(Reply[Result]{
 					Error: ReplyTimeoutError{time.Since(start), ctx.Err()},
-				}
+				})
 				return
 			case notifyMsg, ok := <-notifyMsgs:
 				if !ok {
 					// subscriber is closed
-					replyChan <- Reply[Result]{
+					sendLastReply(Reply[Result]{
 						Error: ReplyTimeoutError{time.Since(start), fmt.Errorf("subscriber closed")},
-					}
+					})
 					return
 				}
 
 				resp, ok, unmarshalErr := p.handleNotifyMsg(notifyMsg, string(params.OperationID), p.marshaler)
 				if unmarshalErr != nil {
-					replyChan <- Reply[Result]{
+					sendReply(Reply[Result]{
 						Error: ReplyUnmarshalError{unmarshalErr},
-					}
+					})
 				} else if ok {
-					replyChan <- Reply[Result]{
+					sendReply(Reply[Result]{
 						HandlerResult:       resp.HandlerResult,
 						Error:               resp.Error,
 						NotificationMessage: notifyMsg,
-					}
+					})
 				}
 
 				// we assume that more messages may arrive (in case of fan-out commands handling) - we don't exit yet
